@@ -393,7 +393,7 @@ theorem chunksOf_flatten (size : Nat) (bs : List Nat) : (chunksOf size bs).flatt
   · simp only [hs, if_false]
     exact chunksOf_go_flatten size (Nat.pos_of_ne_zero hs) _ bs (Nat.le_refl _)
 
-instance : DecidableEq (Except Err (List Text)) := fun a b =>
+instance instDecEqExcept {ε α} [DecidableEq ε] [DecidableEq α] : DecidableEq (Except ε α) := fun a b =>
   match a, b with
   | .ok x, .ok y => if h : x = y then isTrue (by rw [h]) else isFalse (by intro h'; cases h'; exact h rfl)
   | .error x, .error y => if h : x = y then isTrue (by rw [h]) else isFalse (by intro h'; cases h'; exact h rfl)
@@ -691,6 +691,814 @@ theorem decode_encodeCP (c : Nat) (bs rest : List Nat) (h : encodeCP c = .ok bs)
                 simp only [List.cons_append, List.nil_append, decodeFrom, e1, e2, e3, e4]
                 cases decodeFrom U8.init rest <;> rfl
           · cases h
+
+
+
+/-! ## B.2 DiskSink / DiskSource framing -/
+
+
+theorem decode_encode (t : Text) (bs rest : List Nat) (h : encode t = .ok bs) :
+    decodeFrom U8.init (bs ++ rest) =
+      match decodeFrom U8.init rest with
+      | .error e => .error e
+      | .ok (s, t') => .ok (s, t ++ t') := by
+  induction t generalizing bs with
+  | nil =>
+    simp [encode] at h; subst h
+    simp only [List.nil_append]
+    cases decodeFrom U8.init rest <;> rfl
+  | cons c t ih =>
+    simp only [encode] at h
+    cases h1 : encodeCP c with
+    | error e => simp [h1] at h
+    | ok b1 =>
+      simp only [h1] at h
+      cases h2 : encode t with
+      | error e => simp [h2] at h
+      | ok b2 =>
+        simp only [h2] at h
+        cases h
+        rw [List.append_assoc, decode_encodeCP c b1 (b2 ++ rest) h1, ih b2 h2]
+        cases decodeFrom U8.init rest <;> rfl
+
+theorem decodeAll_encode (t : Text) (bs : List Nat) (h : encode t = .ok bs) : decodeAll bs = .ok t := by
+  have := decode_encode t bs [] h
+  simp only [List.append_nil, decodeFrom] at this
+  unfold decodeAll
+  rw [this]
+  rfl
+
+theorem encodeCP_ok (c : Nat) (h : isScalar c = true) : ∃ bs, encodeCP c = .ok bs := by
+  unfold isScalar at h
+  simp only [Bool.and_eq_true, Bool.or_eq_true, decide_eq_true_eq] at h
+  unfold encodeCP
+  split
+  · exact ⟨_, rfl⟩
+  · split
+    · exact ⟨_, rfl⟩
+    · split
+      · exfalso; omega
+      · split
+        · exact ⟨_, rfl⟩
+        · split
+          · exact ⟨_, rfl⟩
+          · exfalso; omega
+
+theorem encode_ok (t : Text) (h : ∀ c ∈ t, isScalar c = true) : ∃ bs, encode t = .ok bs := by
+  induction t with
+  | nil => exact ⟨[], rfl⟩
+  | cons c t ih =>
+    obtain ⟨b1, h1⟩ := encodeCP_ok c (h c (by simp))
+    obtain ⟨b2, h2⟩ := ih (fun d hd => h d (by simp [hd]))
+    exact ⟨b1 ++ b2, by simp [encode, h1, h2]⟩
+
+theorem encode_append (a b : Text) (x y : List Nat) (ha : encode a = .ok x) (hb : encode b = .ok y) :
+    encode (a ++ b) = .ok (x ++ y) := by
+  induction a generalizing x with
+  | nil => simp [encode] at ha; subst ha; simpa using hb
+  | cons c a ih =>
+    simp only [encode] at ha
+    cases h1 : encodeCP c with
+    | error e => simp [h1] at ha
+    | ok b1 =>
+      simp only [h1] at ha
+      cases h2 : encode a with
+      | error e => simp [h2] at ha
+      | ok b2 =>
+        simp only [h2] at ha
+        cases ha
+        simp [encode, h1, ih b2 h2]
+
+/-- the text a list of lines is framed into -/
+def frame (ls : List Text) : Text := (ls.map (· ++ [LF])).flatten
+
+theorem isScalar_LF : isScalar LF = true := by decide
+
+theorem encodeLines_ok (ls : List Text) (h : ∀ l ∈ ls, ∀ c ∈ l, isScalar c = true) :
+    ∃ bs, encodeLines ls = .ok bs ∧ encode (frame ls) = .ok bs := by
+  induction ls with
+  | nil => exact ⟨[], rfl, rfl⟩
+  | cons l ls ih =>
+    obtain ⟨b2, h2, h3⟩ := ih (fun l' hl' => h l' (by simp [hl']))
+    obtain ⟨b1, h1⟩ := encode_ok (l ++ [LF]) (by
+      intro c hc
+      simp only [List.mem_append, List.mem_singleton] at hc
+      rcases hc with hc | hc
+      · exact h l (by simp) c hc
+      · subst hc; exact isScalar_LF)
+    refine ⟨b1 ++ b2, by simp [encodeLines, h1, h2], ?_⟩
+    simp only [frame, List.map_cons, List.flatten_cons]
+    exact encode_append _ _ _ _ h1 h3
+
+theorem batches_go_flatten (n : Nat) (hn : 0 < n) (fuel : Nat) (ls : List Text) (h : ls.length < fuel) :
+    (batches.go n fuel ls).flatten = ls := by
+  induction fuel generalizing ls with
+  | zero => omega
+  | succ k ih =>
+    simp only [batches.go]
+    by_cases hb : (ls.take n).length = n
+    · simp only [hb, if_true, List.flatten_cons]
+      rw [ih (ls.drop n) (by
+        simp only [List.length_take] at hb
+        simp only [List.length_drop]; omega)]
+      exact List.take_append_drop n ls
+    · simp only [hb, if_false, List.flatten_cons, List.flatten_nil, List.append_nil]
+      simp only [List.length_take] at hb
+      exact List.take_of_length_le (by omega)
+
+theorem batches_flatten (b : Option Nat) (ls : List Text) : (batches b ls).flatten = ls := by
+  unfold batches
+  cases b with
+  | none => simp
+  | some n =>
+    cases n with
+    | zero => simp
+    | succ m => exact batches_go_flatten (m + 1) (by omega) _ ls (by omega)
+
+theorem frame_append (a b : List Text) : frame (a ++ b) = frame a ++ frame b := by
+  simp [frame]
+
+theorem diskWriteParts_go_ok (bs : List (List Text)) (h : ∀ b ∈ bs, ∀ l ∈ b, ∀ c ∈ l, isScalar c = true) :
+    ∃ parts bytes, diskWriteParts.go bs = .ok parts ∧ encode (frame bs.flatten) = .ok bytes ∧ parts.flatten = bytes := by
+  induction bs with
+  | nil => exact ⟨[], [], rfl, rfl, rfl⟩
+  | cons b bs ih =>
+    obtain ⟨parts, bytes, h1, h2, h3⟩ := ih (fun b' hb' => h b' (by simp [hb']))
+    obtain ⟨x, hx, hx2⟩ := encodeLines_ok b (h b (by simp))
+    refine ⟨x :: parts, x ++ bytes, by simp [diskWriteParts.go, hx, h1], ?_, by simp [h3]⟩
+    simp only [List.flatten_cons, frame_append]
+    exact encode_append _ _ _ _ hx2 h2
+
+theorem universalNlGo_noCr (t : Text) (h : ∀ c ∈ t, c ≠ CR) : universalNlGo false t = t := by
+  induction t with
+  | nil => rfl
+  | cons c t ih =>
+    have hc : (c == CR) = false := by simpa using h c (by simp)
+    simp [universalNlGo, hc, ih (fun d hd => h d (by simp [hd]))]
+
+theorem readlinesGo_line (cur l : Text) (rest : Text) (h : ∀ c ∈ l, c ≠ LF) :
+    readlinesGo cur (l ++ LF :: rest) = (cur ++ l ++ [LF]) :: readlinesGo [] rest := by
+  induction l generalizing cur with
+  | nil => simp [readlinesGo]
+  | cons c l ih =>
+    have hc : (c == LF) = false := by simpa using h c (by simp)
+    simp only [List.cons_append, readlinesGo, hc, Bool.false_eq_true, if_false]
+    rw [ih (cur ++ [c]) (fun d hd => h d (by simp [hd]))]
+    simp
+
+theorem readlines_frame (ls : List Text) (h : ∀ l ∈ ls, ∀ c ∈ l, c ≠ LF) :
+    readlinesGo [] (frame ls) = ls.map (· ++ [LF]) := by
+  induction ls with
+  | nil => simp [frame, readlinesGo]
+  | cons l ls ih =>
+    simp only [frame, List.map_cons, List.flatten_cons, List.append_assoc, List.singleton_append]
+    rw [readlinesGo_line [] l _ (h l (by simp))]
+    have := ih (fun l' hl' => h l' (by simp [hl']))
+    simp only [frame] at this
+    simp [this]
+
+theorem rstripNl_line (l : Text) (h : noNl l = true) : rstripNl (l ++ [LF]) = l := by
+  unfold rstripNl
+  simp only [List.reverse_append, List.reverse_cons, List.reverse_nil, List.nil_append, List.singleton_append]
+  have h1 : List.dropWhile (fun c => c == CR || c == LF) (LF :: l.reverse) = List.dropWhile (fun c => c == CR || c == LF) l.reverse := by
+    simp [List.dropWhile]
+  rw [h1]
+  have h2 : List.dropWhile (fun c => c == CR || c == LF) l.reverse = l.reverse := by
+    cases hr : l.reverse with
+    | nil => rfl
+    | cons a r =>
+      have : a ∈ l := by
+        have : a ∈ l.reverse := by rw [hr]; simp
+        simpa using this
+      unfold noNl at h
+      have := List.all_eq_true.mp h a this
+      simp only [Bool.not_eq_true'] at this
+      simp [List.dropWhile, this]
+  rw [h2, List.reverse_reverse]
+
+theorem noNl_ne (l : Text) (h : noNl l = true) : (∀ c ∈ l, c ≠ CR) ∧ (∀ c ∈ l, c ≠ LF) := by
+  unfold noNl at h
+  have := List.all_eq_true.mp h
+  constructor <;> intro c hc <;> have := this c hc <;> simp at this <;> intro heq <;> subst heq <;> simp [CR, LF] at this
+
+theorem disk_roundtrip' (batch : Option Nat) (lines : List Text)
+    (hs : ∀ l ∈ lines, ∀ c ∈ l, isScalar c = true) (hn : ∀ l ∈ lines, noNl l = true) :
+    ∃ parts, diskWriteParts batch lines = .ok parts ∧ diskRead parts.flatten = .ok lines := by
+  obtain ⟨parts, bytes, h1, h2, h3⟩ := diskWriteParts_go_ok (batches batch lines) (by
+    intro b hb l hl
+    have : l ∈ (batches batch lines).flatten := List.mem_flatten.mpr ⟨b, hb, hl⟩
+    rw [batches_flatten] at this
+    exact hs l this)
+  refine ⟨parts, h1, ?_⟩
+  rw [batches_flatten] at h2
+  rw [h3]
+  unfold diskRead
+  rw [decodeAll_encode _ _ h2]
+  simp only
+  have hcr : ∀ c ∈ frame lines, c ≠ CR := by
+    intro c hc
+    simp only [frame, List.mem_flatten, List.mem_map] at hc
+    obtain ⟨l', ⟨l, hl, rfl⟩, hc⟩ := hc
+    simp only [List.mem_append, List.mem_singleton] at hc
+    rcases hc with hc | hc
+    · exact (noNl_ne l (hn l hl)).1 c hc
+    · subst hc; decide
+  unfold universalNl
+  rw [universalNlGo_noCr _ hcr, readlines_frame lines (fun l hl => (noNl_ne l (hn l hl)).2)]
+  rw [List.map_map]
+  congr 1
+  have : ∀ l ∈ lines, (rstripNl ∘ fun x => x ++ [LF]) l = id l := by
+    intro l hl; simp [rstripNl_line l (hn l hl)]
+  rw [List.map_congr_left this]; simp
+
+
+
+/-! ## C.1 csv.reader on RFC 4180 output -/
+
+
+section csv
+variable (delim : Nat) (hd1 : delim ≠ DQ) (hd2 : isNl delim = false)
+
+theorem isNl_DQ : isNl DQ = false := by decide
+
+theorem csv_inField_char (acc : Text) (fs : List Text) (c : Nat) (h1 : isNl c = false) (h2 : c ≠ delim) :
+    csvChar (excel delim) ⟨.inField, acc, fs⟩ (some c) = .ok ⟨.inField, acc ++ [c], fs⟩ := by
+  simp [csvChar, csvInField, excel, h1, h2, addChar]
+
+theorem csv_inField_delim (acc : Text) (fs : List Text) (hd2 : isNl delim = false) :
+    csvChar (excel delim) ⟨.inField, acc, fs⟩ (some delim) = .ok ⟨.startField, [], fs ++ [acc]⟩ := by
+  simp [csvChar, csvInField, excel, hd2, saveField]
+
+theorem csv_inField_eol (acc : Text) (fs : List Text) :
+    csvChar (excel delim) ⟨.inField, acc, fs⟩ none = .ok ⟨.startRecord, [], fs ++ [acc]⟩ := by
+  simp [csvChar, csvInField, saveField]
+
+theorem csv_startField_char (fs : List Text) (c : Nat) (h1 : isNl c = false) (h2 : c ≠ delim) (h3 : c ≠ DQ) :
+    csvChar (excel delim) ⟨.startField, [], fs⟩ (some c) = .ok ⟨.inField, [c], fs⟩ := by
+  have : ¬ (34 = c) := fun h => h3 (by simp [DQ, h])
+  simp [csvChar, csvStartField, excel, h1, h2, this, addChar]
+
+theorem csv_startField_delim (fs : List Text) (hd1 : delim ≠ DQ) (hd2 : isNl delim = false) :
+    csvChar (excel delim) ⟨.startField, [], fs⟩ (some delim) = .ok ⟨.startField, [], fs ++ [[]]⟩ := by
+  have : ¬ (34 = delim) := fun h => hd1 (by simp [DQ, h])
+  simp [csvChar, csvStartField, excel, hd2, this, saveField]
+
+theorem csv_startField_eol (fs : List Text) :
+    csvChar (excel delim) ⟨.startField, [], fs⟩ none = .ok ⟨.startRecord, [], fs ++ [[]]⟩ := by
+  simp [csvChar, csvStartField, saveField]
+
+theorem csv_startField_dq (fs : List Text) :
+    csvChar (excel delim) ⟨.startField, [], fs⟩ (some DQ) = .ok ⟨.inQuoted, [], fs⟩ := by
+  have h : isNl 34 = false := by decide
+  simp [csvChar, csvStartField, excel, DQ, goto, h]
+
+theorem csv_inQuoted_char (acc : Text) (fs : List Text) (c : Nat) (h : c ≠ DQ) :
+    csvChar (excel delim) ⟨.inQuoted, acc, fs⟩ (some c) = .ok ⟨.inQuoted, acc ++ [c], fs⟩ := by
+  have : ¬ (34 = c) := fun h' => h (by simp [DQ, h'])
+  simp [csvChar, excel, this, addChar]
+
+theorem csv_inQuoted_dq (acc : Text) (fs : List Text) :
+    csvChar (excel delim) ⟨.inQuoted, acc, fs⟩ (some DQ) = .ok ⟨.quoteInQuoted, acc, fs⟩ := by
+  simp [csvChar, excel, DQ, goto]
+
+theorem csv_qiq_dq (acc : Text) (fs : List Text) :
+    csvChar (excel delim) ⟨.quoteInQuoted, acc, fs⟩ (some DQ) = .ok ⟨.inQuoted, acc ++ [DQ], fs⟩ := by
+  simp [csvChar, excel, DQ, addChar]
+
+theorem csv_qiq_delim (acc : Text) (fs : List Text) (hd1 : delim ≠ DQ) :
+    csvChar (excel delim) ⟨.quoteInQuoted, acc, fs⟩ (some delim) = .ok ⟨.startField, [], fs ++ [acc]⟩ := by
+  have : ¬ (34 = delim) := fun h => hd1 (by simp [DQ, h])
+  simp [csvChar, excel, this, saveField]
+
+theorem csv_qiq_eol (acc : Text) (fs : List Text) :
+    csvChar (excel delim) ⟨.quoteInQuoted, acc, fs⟩ none = .ok ⟨.startRecord, [], fs ++ [acc]⟩ := by
+  simp [csvChar, saveField]
+
+/-- F1 -/
+theorem csvFeed_bare (f : Text) (acc : Text) (fs : List Text) (rest : Text)
+    (h : ∀ c ∈ f, isNl c = false ∧ c ≠ delim) :
+    csvFeed (excel delim) ⟨.inField, acc, fs⟩ (f ++ rest) = csvFeed (excel delim) ⟨.inField, acc ++ f, fs⟩ rest := by
+  induction f generalizing acc with
+  | nil => simp
+  | cons c f ih =>
+    have hc := h c (by simp)
+    simp only [List.cons_append, csvFeed, csv_inField_char delim acc fs c hc.1 hc.2]
+    rw [ih (acc ++ [c]) (fun d hd => h d (by simp [hd]))]
+    simp
+
+/-- F2 -/
+theorem csvFeed_quoted (f : Text) (acc : Text) (fs : List Text) (rest : Text) :
+    csvFeed (excel delim) ⟨.inQuoted, acc, fs⟩ (csvEscape f ++ rest) = csvFeed (excel delim) ⟨.inQuoted, acc ++ f, fs⟩ rest := by
+  induction f generalizing acc with
+  | nil => simp [csvEscape]
+  | cons c f ih =>
+    by_cases hc : c = DQ
+    · subst hc
+      simp only [csvEscape, if_true, List.cons_append, csvFeed, csv_inQuoted_dq, csv_qiq_dq]
+      rw [ih]; simp
+    · simp only [csvEscape, hc, if_false, List.cons_append, csvFeed, csv_inQuoted_char delim acc fs c hc]
+      rw [ih]; simp
+
+theorem not_mustQuote (f : Text) (h : mustQuote delim f = false) :
+    ∀ c ∈ f, isNl c = false ∧ c ≠ delim ∧ c ≠ DQ := by
+  intro c hc
+  unfold mustQuote at h
+  have := (List.any_eq_false.mp h) c hc
+  simp only [Bool.or_eq_true, beq_iff_eq, not_or] at this
+  exact ⟨by simpa using this.2, this.1.1, this.1.2⟩
+
+/-- F3a: a written field followed by the delimiter -/
+theorem csvFeed_field_delim (x : Bool × Text) (fs : List Text) (rest : Text)
+    (hd1 : delim ≠ DQ) (hd2 : isNl delim = false) :
+    csvFeed (excel delim) ⟨.startField, [], fs⟩ (csvWriteField delim x ++ delim :: rest) =
+      csvFeed (excel delim) ⟨.startField, [], fs ++ [x.2]⟩ rest := by
+  unfold csvWriteField
+  by_cases hq : (x.1 || mustQuote delim x.2) = true
+  · simp only [hq, if_true, List.cons_append, List.append_assoc, csvFeed, csv_startField_dq]
+    rw [csvFeed_quoted]
+    simp only [List.nil_append, List.cons_append, csvFeed, csv_inQuoted_dq, csv_qiq_delim delim _ _ hd1]
+  · have hq' : (x.1 || mustQuote delim x.2) = false := by simpa using hq
+    have hm : mustQuote delim x.2 = false := by
+      cases hx : x.1 <;> simp_all
+    have hall := not_mustQuote delim x.2 hm
+    simp only [hq', Bool.false_eq_true, if_false]
+    cases hf : x.2 with
+    | nil => simp only [List.nil_append, csvFeed, csv_startField_delim delim fs hd1 hd2]
+    | cons c f =>
+      rw [hf] at hall
+      have hc := hall c (by simp)
+      simp only [List.cons_append, csvFeed, csv_startField_char delim fs c hc.1 hc.2.1 hc.2.2]
+      rw [csvFeed_bare delim f [c] fs _ (fun d hd => ⟨(hall d (by simp [hd])).1, (hall d (by simp [hd])).2.1⟩)]
+      simp only [List.singleton_append, csvFeed, csv_inField_delim delim _ _ hd2]
+
+/-- F3b: a written field at the end of the line -/
+theorem csvLine_field (x : Bool × Text) (fs : List Text) :
+    csvLine (excel delim) ⟨.startField, [], fs⟩ (csvWriteField delim x) = .ok ⟨.startRecord, [], fs ++ [x.2]⟩ := by
+  unfold csvWriteField csvLine
+  by_cases hq : (x.1 || mustQuote delim x.2) = true
+  · simp only [hq, if_true, csvFeed, csv_startField_dq]
+    rw [csvFeed_quoted]
+    simp only [List.nil_append, csvFeed, csv_inQuoted_dq, csv_qiq_eol]
+  · have hq' : (x.1 || mustQuote delim x.2) = false := by simpa using hq
+    have hm : mustQuote delim x.2 = false := by
+      cases hx : x.1 <;> simp_all
+    have hall := not_mustQuote delim x.2 hm
+    simp only [hq', Bool.false_eq_true, if_false]
+    cases hf : x.2 with
+    | nil => simp only [csvFeed, csv_startField_eol]
+    | cons c f =>
+      rw [hf] at hall
+      have hc := hall c (by simp)
+      simp only [csvFeed, csv_startField_char delim fs c hc.1 hc.2.1 hc.2.2]
+      have := csvFeed_bare delim f [c] fs [] (fun d hd => ⟨(hall d (by simp [hd])).1, (hall d (by simp [hd])).2.1⟩)
+      simp only [List.append_nil] at this
+      rw [this]
+      simp only [List.singleton_append, csvFeed, csv_inField_eol]
+
+theorem csvFeed_append (d : Dialect) (r : CsvR) (a b : Text) :
+    csvFeed d r (a ++ b) = match csvFeed d r a with | .error e => .error e | .ok r1 => csvFeed d r1 b := by
+  induction a generalizing r with
+  | nil => simp [csvFeed]
+  | cons c a ih =>
+    simp only [List.cons_append, csvFeed]
+    cases csvChar d r (some c) with
+    | error e => rfl
+    | ok r1 => exact ih r1
+
+/-- F4: a written row from START_FIELD -/
+theorem csvLine_row (row : List (Bool × Text)) (fs : List Text) (hne : row ≠ [])
+    (hd1 : delim ≠ DQ) (hd2 : isNl delim = false) :
+    csvLine (excel delim) ⟨.startField, [], fs⟩ (csvWriteRow delim row) =
+      .ok ⟨.startRecord, [], fs ++ row.map (·.2)⟩ := by
+  induction row generalizing fs with
+  | nil => exact absurd rfl hne
+  | cons x xs ih =>
+    cases xs with
+    | nil => simp [csvWriteRow, csvLine_field]
+    | cons y ys =>
+      have := ih (fs ++ [x.2]) (by simp)
+      simp only [csvWriteRow, csvLine] at this ⊢
+      rw [csvFeed_field_delim delim x fs _ hd1 hd2, this]
+      simp
+
+theorem csv_startRecord_eq (d : Dialect) (a : Text) (fs : List Text) (c : Nat) (h : isNl c = false) :
+    csvChar d ⟨.startRecord, a, fs⟩ (some c) = csvChar d ⟨.startField, a, fs⟩ (some c) := by
+  simp [csvChar, h, csvStartField, saveField, addChar, goto]
+
+theorem csvWriteField_head (x : Bool × Text) (h : x.2.all (fun c => !isNl c) = true) :
+    ∀ c t, csvWriteField delim x = c :: t → isNl c = false := by
+  intro c t he
+  unfold csvWriteField at he
+  split at he
+  · cases he; exact isNl_DQ
+  · have : c ∈ x.2 := by rw [he]; simp
+    have := List.all_eq_true.mp h c this
+    simpa using this
+
+/-- the first character of a written row is not a line break, and the row is not empty -/
+theorem csvWriteRow_head (row : List (Bool × Text)) (hok : csvRowOk row = true) (hd2 : isNl delim = false) :
+    ∃ c t, csvWriteRow delim row = c :: t ∧ isNl c = false := by
+  unfold csvRowOk at hok
+  simp only [Bool.and_eq_true, decide_eq_true_eq] at hok
+  obtain ⟨⟨hne, hall⟩, hlone⟩ := hok
+  cases row with
+  | nil => exact absurd rfl hne
+  | cons x xs =>
+    have hx : x.2.all (fun c => !isNl c) = true := (List.all_eq_true.mp hall) x (by simp)
+    cases xs with
+    | nil =>
+      simp only [csvWriteRow]
+      cases hw : csvWriteField delim x with
+      | nil =>
+        exfalso
+        unfold csvWriteField at hw
+        split at hw
+        · cases hw
+        · rename_i hq
+          simp only [Bool.or_eq_true, not_or] at hq
+          simp only [Bool.or_eq_true, decide_eq_true_eq] at hlone
+          rcases hlone with h | h
+          · exact h hw
+          · exact hq.1 h
+      | cons c t => exact ⟨c, t, rfl, csvWriteField_head delim x hx c t hw⟩
+    | cons y ys =>
+      simp only [csvWriteRow]
+      cases hw : csvWriteField delim x with
+      | nil => exact ⟨delim, _, by simp; rfl, hd2⟩
+      | cons c t => exact ⟨c, _, by simp; rfl, csvWriteField_head delim x hx c t hw⟩
+
+theorem csvLine_row_reset (row : List (Bool × Text)) (hok : csvRowOk row = true)
+    (hd1 : delim ≠ DQ) (hd2 : isNl delim = false) :
+    csvLine (excel delim) CsvR.reset (csvWriteRow delim row) = .ok ⟨.startRecord, [], row.map (·.2)⟩ := by
+  obtain ⟨c, t, he, hc⟩ := csvWriteRow_head delim row hok hd2
+  have hne : row ≠ [] := by
+    unfold csvRowOk at hok
+    simp only [Bool.and_eq_true, decide_eq_true_eq] at hok
+    exact hok.1.1
+  have := csvLine_row delim row [] hne hd1 hd2
+  rw [he] at this ⊢
+  simp only [csvLine, csvFeed, CsvR.reset, csv_startRecord_eq _ _ _ c hc] at this ⊢
+  simpa using this
+
+/-- F6 -/
+theorem csvRecords_rows (rows : List (List (Bool × Text))) (hok : ∀ r ∈ rows, csvRowOk r = true)
+    (hd1 : delim ≠ DQ) (hd2 : isNl delim = false) :
+    csvRecords (excel delim) CsvR.reset (rows.map (csvWriteRow delim)) = .ok (rows.map (·.map (·.2))) := by
+  induction rows with
+  | nil => simp [csvRecords, CsvR.reset]
+  | cons r rs ih =>
+    simp only [List.map_cons, csvRecords, csvLine_row_reset delim r (hok r (by simp)) hd1 hd2, if_true]
+    rw [ih (fun r' hr' => hok r' (by simp [hr']))]
+
+end csv
+
+
+/-! ## C.2 CsvReader, LibsvmReader, ManikReader round trips -/
+
+
+theorem dropWhile_head_false {α} (p : α → Bool) (l : List α) (h : ∀ a, l.head? = some a → p a = false) :
+    l.dropWhile p = l := by
+  cases l with
+  | nil => rfl
+  | cons a l => simp [List.dropWhile, h a rfl]
+
+theorem rstripNl_id (t : Text) (h : ∀ c, t.getLast? = some c → isNl c = false) : rstripNl t = t := by
+  unfold rstripNl
+  rw [dropWhile_head_false, List.reverse_reverse]
+  intro a ha
+  rw [List.head?_reverse] at ha
+  have := h a ha
+  simpa [isNl, CR, LF, Bool.or_comm] using this
+
+theorem strip_id (t : Text) (h1 : ∀ c, t.head? = some c → isPySpace c = false)
+    (h2 : ∀ c, t.getLast? = some c → isPySpace c = false) : strip t = t := by
+  unfold strip
+  rw [dropWhile_head_false isPySpace t h1, dropWhile_head_false, List.reverse_reverse]
+  intro a ha
+  rw [List.head?_reverse] at ha
+  exact h2 a ha
+
+section csv
+variable (delim : Nat)
+
+theorem csvEscape_mem (f : Text) (c : Nat) (h : c ∈ csvEscape f) : c ∈ f ∨ c = DQ := by
+  induction f with
+  | nil => simp [csvEscape] at h
+  | cons a f ih =>
+    simp only [csvEscape] at h
+    split at h
+    · simp only [List.mem_cons] at h
+      rcases h with h | h | h
+      · right; exact h
+      · right; exact h
+      · rcases ih h with h | h
+        · left; simp [h]
+        · right; exact h
+    · simp only [List.mem_cons] at h
+      rcases h with h | h
+      · left; simp [h]
+      · rcases ih h with h | h
+        · left; simp [h]
+        · right; exact h
+
+theorem csvWriteField_noNl (x : Bool × Text) (h : x.2.all (fun c => !isNl c) = true) :
+    ∀ c ∈ csvWriteField delim x, isNl c = false := by
+  intro c hc
+  have hx : ∀ c ∈ x.2, isNl c = false := fun c hc => by simpa using List.all_eq_true.mp h c hc
+  unfold csvWriteField at hc
+  split at hc
+  · simp only [List.mem_cons, List.mem_append, List.mem_singleton, List.not_mem_nil, or_false] at hc
+    rcases hc with hc | hc | hc
+    · subst hc; exact isNl_DQ
+    · rcases csvEscape_mem _ _ hc with h' | h'
+      · exact hx c h'
+      · subst h'; exact isNl_DQ
+    · subst hc; exact isNl_DQ
+  · exact hx c hc
+
+theorem csvWriteRow_noNl (row : List (Bool × Text)) (h : row.all (fun x => x.2.all (fun c => !isNl c)) = true)
+    (hd2 : isNl delim = false) : ∀ c ∈ csvWriteRow delim row, isNl c = false := by
+  induction row with
+  | nil => simp [csvWriteRow]
+  | cons x xs ih =>
+    have hx := List.all_eq_true.mp h x (by simp)
+    have hxs : xs.all (fun x => x.2.all (fun c => !isNl c)) = true := by
+      simp only [List.all_cons, Bool.and_eq_true] at h; exact h.2
+    cases xs with
+    | nil => simpa [csvWriteRow] using csvWriteField_noNl delim x hx
+    | cons y ys =>
+      intro c hc
+      simp only [csvWriteRow, List.mem_append, List.mem_cons] at hc
+      rcases hc with hc | hc | hc
+      · exact csvWriteField_noNl delim x hx c hc
+      · subst hc; exact hd2
+      · exact ih hxs c hc
+
+theorem csvRowOk_parts (row : List (Bool × Text)) (h : csvRowOk row = true) :
+    row ≠ [] ∧ row.all (fun x => x.2.all (fun c => !isNl c)) = true := by
+  unfold csvRowOk at h
+  simp only [Bool.and_eq_true, decide_eq_true_eq] at h
+  exact ⟨h.1.1, h.1.2⟩
+
+theorem csv_lines_clean (rows : List (List (Bool × Text))) (hok : ∀ r ∈ rows, csvRowOk r = true)
+    (hd2 : isNl delim = false) :
+    ((rows.map (csvWriteRow delim)).map rstripNl).filter (· ≠ []) = rows.map (csvWriteRow delim) := by
+  induction rows with
+  | nil => rfl
+  | cons r rs ih =>
+    have hr := hok r (by simp)
+    obtain ⟨c, t, he, _⟩ := csvWriteRow_head delim r hr hd2
+    have hnn := csvWriteRow_noNl delim r (csvRowOk_parts r hr).2 hd2
+    have hid : rstripNl (csvWriteRow delim r) = csvWriteRow delim r :=
+      rstripNl_id _ (fun c hc => hnn c (List.mem_of_getLast? hc))
+    simp only [List.map_cons, hid]
+    rw [List.filter_cons_of_pos (by simp [he])]
+    rw [ih (fun r' hr' => hok r' (by simp [hr']))]
+
+/-- CsvReader (repaired) on the output of an RFC 4180 writer -/
+theorem csv_roundtrip' (hasHeader : Bool) (rows : List (List (Bool × Text)))
+    (hok : ∀ r ∈ rows, csvRowOk r = true) (hd1 : delim ≠ DQ) (hd2 : isNl delim = false) :
+    csvReaderFix (excel delim) hasHeader (rows.map (csvWriteRow delim)) =
+      match rows.map (·.map (·.2)) with
+      | [] => .ok (none, [])
+      | first :: rest => if hasHeader then .ok (some first, rest) else .ok (none, first :: rest) := by
+  unfold csvReaderFix
+  rw [csv_lines_clean delim rows hok hd2, csvRecords_rows delim rows hok hd1 hd2]
+  cases rows.map (·.map (·.2)) <;> rfl
+
+/-- CsvReader as written: additionally no written line may begin or end with white space
+(`str.strip`); without any record `next` raises StopIteration -/
+theorem csv_roundtrip_cur' (hasHeader : Bool) (rows : List (List (Bool × Text)))
+    (hok : ∀ r ∈ rows, csvRowOk r = true) (hd1 : delim ≠ DQ) (hd2 : isNl delim = false)
+    (hedge : ∀ r ∈ rows, strip (csvWriteRow delim r) = csvWriteRow delim r) :
+    csvReaderCur (excel delim) hasHeader (rows.map (csvWriteRow delim)) =
+      match rows.map (·.map (·.2)) with
+      | [] => .error .stopIteration
+      | first :: rest => if hasHeader then .ok (some first, rest) else .ok (none, first :: rest) := by
+  unfold csvReaderCur
+  have h1 : (rows.map (csvWriteRow delim)).map strip = rows.map (csvWriteRow delim) := by
+    rw [List.map_map]
+    exact List.map_congr_left (fun r hr => by simp [hedge r hr])
+  have h2 : (rows.map (csvWriteRow delim)).filter (· ≠ []) = rows.map (csvWriteRow delim) := by
+    rw [List.filter_eq_self]
+    intro l hl
+    simp only [List.mem_map] at hl
+    obtain ⟨r, hr, rfl⟩ := hl
+    obtain ⟨c, t, he, _⟩ := csvWriteRow_head delim r (hok r hr) hd2
+    simp [he]
+  rw [h1, h2, csvRecords_rows delim rows hok hd1 hd2]
+  cases rows.map (·.map (·.2)) <;> rfl
+
+end csv
+
+/-! ### LibSVM -/
+
+theorem splitOnGo_tok (sep : Nat) (cur tok rest : Text) (h : ∀ c ∈ tok, c ≠ sep) :
+    splitOnGo sep cur (tok ++ rest) = splitOnGo sep (cur ++ tok) rest := by
+  induction tok generalizing cur with
+  | nil => simp
+  | cons c tok ih =>
+    have hc := h c (by simp)
+    simp only [List.cons_append, splitOnGo, hc, if_false]
+    rw [ih (cur ++ [c]) (fun d hd => h d (by simp [hd]))]
+    simp
+
+theorem splitOnGo_join (sep : Nat) (cur : Text) (x : Text) (xs : List Text)
+    (h : ∀ t ∈ x :: xs, ∀ c ∈ t, c ≠ sep) :
+    splitOnGo sep cur (joinWith sep (x :: xs)) = (cur ++ x) :: xs := by
+  induction xs generalizing cur x with
+  | nil =>
+    have := splitOnGo_tok sep cur x [] (h x (by simp))
+    simp only [List.append_nil] at this
+    simp [joinWith, this, splitOnGo]
+  | cons y ys ih =>
+    simp only [joinWith]
+    rw [splitOnGo_tok sep cur x _ (h x (by simp))]
+    simp only [splitOnGo, if_true]
+    rw [ih [] y (fun t ht => h t (by simp at ht ⊢; right; exact ht))]
+    simp
+
+theorem splitOn_join (sep : Nat) (toks : List Text) (hne : toks ≠ []) (h : ∀ t ∈ toks, ∀ c ∈ t, c ≠ sep) :
+    splitOn sep (joinWith sep toks) = toks := by
+  cases toks with
+  | nil => exact absurd rfl hne
+  | cons x xs => simpa [splitOn] using splitOnGo_join sep [] x xs h
+
+def svmItem (kv : Text × Text) : Text := kv.1 ++ COLON :: kv.2
+
+theorem svmWrite_eq_join (a : Text) (fs : List (Text × Text)) :
+    a ++ svmWriteFeats fs = joinWith SP (a :: fs.map svmItem) := by
+  induction fs generalizing a with
+  | nil => simp [svmWriteFeats, joinWith]
+  | cons kv fs ih =>
+    obtain ⟨k, v⟩ := kv
+    simp only [svmWriteFeats, List.map_cons, joinWith]
+    have := ih (k ++ COLON :: v)
+    simp only [svmItem] at this ⊢
+    rw [← this]
+    simp
+
+theorem svmFeats_items (fs : List (Text × Text))
+    (h : ∀ kv ∈ fs, (∀ c ∈ kv.1, c ≠ COLON) ∧ (∀ c ∈ kv.2, c ≠ COLON)) :
+    svmFeats (fs.map svmItem) = .ok fs := by
+  induction fs with
+  | nil => rfl
+  | cons kv fs ih =>
+    obtain ⟨k, v⟩ := kv
+    have hk := h (k, v) (by simp)
+    have : splitOn COLON (svmItem (k, v)) = [k, v] := by
+      have := splitOn_join COLON [k, v] (by simp) (by
+        intro t ht c hc
+        simp only [List.mem_cons, List.not_mem_nil, or_false] at ht
+        rcases ht with rfl | rfl
+        · exact hk.1 c hc
+        · exact hk.2 c hc)
+      simpa [joinWith, svmItem] using this
+    simp only [List.map_cons, svmFeats, this]
+    rw [ih (fun kv hkv => h kv (by simp [hkv]))]
+
+theorem tokenOk_mem (bad : List Nat) (t : Text) (h : tokenOk bad t = true) :
+    ∀ c ∈ t, isPySpace c = false ∧ c ∉ bad := by
+  intro c hc
+  have := List.all_eq_true.mp h c hc
+  simpa using this
+
+theorem isPySpace_SP : isPySpace SP = true := by decide
+theorem isPySpace_COLON : isPySpace COLON = false := by decide
+theorem isPySpace_COMMA : isPySpace COMMA = false := by decide
+
+theorem joinWith_mem (sep : Nat) (toks : List Text) (c : Nat) (h : c ∈ joinWith sep toks) :
+    c = sep ∨ ∃ t ∈ toks, c ∈ t := by
+  induction toks with
+  | nil => simp [joinWith] at h
+  | cons x xs ih =>
+    cases xs with
+    | nil => right; exact ⟨x, by simp, by simpa [joinWith] using h⟩
+    | cons y ys =>
+      simp only [joinWith, List.mem_append, List.mem_cons] at h
+      rcases h with h | h | h
+      · right; exact ⟨x, by simp, h⟩
+      · left; exact h
+      · rcases ih h with h' | ⟨t, ht, hc⟩
+        · left; exact h'
+        · right; exact ⟨t, by simp at ht ⊢; right; exact ht, hc⟩
+
+/-- the last character of a written line is not white space -/
+theorem svm_last (a : Text) (fs : List (Text × Text))
+    (ha : ∀ c, a.getLast? = some c → isPySpace c = false)
+    (h : ∀ kv ∈ fs, ∀ c ∈ kv.2, isPySpace c = false) :
+    ∀ c, (a ++ svmWriteFeats fs).getLast? = some c → isPySpace c = false := by
+  induction fs generalizing a with
+  | nil => simpa [svmWriteFeats] using ha
+  | cons kv fs ih =>
+    obtain ⟨k, v⟩ := kv
+    have e : a ++ svmWriteFeats ((k, v) :: fs) = (a ++ SP :: (k ++ COLON :: v)) ++ svmWriteFeats fs := by
+      simp [svmWriteFeats]
+    rw [e]
+    apply ih
+    · intro c hc
+      have e2 : a ++ SP :: (k ++ COLON :: v) = (a ++ SP :: k) ++ (COLON :: v) := by simp
+      rw [e2, List.getLast?_append] at hc
+      cases v with
+      | nil =>
+        simp at hc; subst hc; exact isPySpace_COLON
+      | cons d v' =>
+        have hv : ((COLON :: d :: v').getLast?) = (d :: v').getLast? := List.getLast?_cons_cons
+        rw [hv] at hc
+        cases hl : (d :: v').getLast? with
+        | none => simp at hl
+        | some z =>
+          rw [hl] at hc
+          simp at hc
+          subst hc
+          exact h (k, d :: v') (by simp) z (List.mem_of_getLast? hl)
+    · intro kv hkv; exact h kv (by simp [hkv])
+
+theorem svmLine_write (r : SvmRow) (hok : svmRowOk r = true) : svmLine (svmWriteRow r) = .ok (some r) := by
+  unfold svmRowOk at hok
+  simp only [Bool.and_eq_true, decide_eq_true_eq] at hok
+  obtain ⟨⟨⟨hl1, hl2⟩, hlab⟩, hfe⟩ := hok
+  have hlabc : ∀ t ∈ r.labels, ∀ c ∈ t, isPySpace c = false ∧ c ≠ COMMA ∧ c ≠ COLON := by
+    intro t ht c hc
+    have := tokenOk_mem _ t (List.all_eq_true.mp hlab t ht) c hc
+    simp only [List.mem_cons, List.not_mem_nil, or_false, not_or] at this
+    exact ⟨this.1, this.2.1, this.2.2⟩
+  have hfec : ∀ kv ∈ r.feats, (∀ c ∈ kv.1, isPySpace c = false ∧ c ≠ COLON) ∧ (∀ c ∈ kv.2, isPySpace c = false ∧ c ≠ COLON) := by
+    intro kv hkv
+    have := List.all_eq_true.mp hfe kv hkv
+    simp only [Bool.and_eq_true] at this
+    constructor
+    · intro c hc
+      have := tokenOk_mem _ _ this.1 c hc
+      simpa using this
+    · intro c hc
+      have := tokenOk_mem _ _ this.2 c hc
+      simpa using this
+  -- the label group
+  have hlabmem : ∀ c ∈ joinWith COMMA r.labels, isPySpace c = false ∧ c ≠ COLON := by
+    intro c hc
+    rcases joinWith_mem _ _ _ hc with h | ⟨t, ht, hc'⟩
+    · subst h; exact ⟨isPySpace_COMMA, by decide⟩
+    · exact ⟨(hlabc t ht c hc').1, (hlabc t ht c hc').2.2⟩
+  have hsp : ∀ c, isPySpace c = false → c ≠ SP := by
+    intro c hc heq; subst heq; simp [isPySpace_SP] at hc
+  -- strip is the identity
+  have hstrip : strip (svmWriteRow r) = svmWriteRow r := by
+    apply strip_id
+    · intro c hc
+      unfold svmWriteRow at hc
+      cases hj : joinWith COMMA r.labels with
+      | nil => exact absurd hj hl2
+      | cons a t =>
+        rw [hj] at hc
+        simp at hc; subst hc
+        exact (hlabmem a (by rw [hj]; simp)).1
+    · unfold svmWriteRow
+      apply svm_last
+      · intro c hc; exact (hlabmem c (List.mem_of_getLast? hc)).1
+      · intro kv hkv c hc; exact ((hfec kv hkv).2 c hc).1
+  unfold svmLine
+  rw [hstrip]
+  unfold svmWriteRow
+  rw [svmWrite_eq_join, splitOn_join SP _ (by simp) (by
+    intro t ht c hc
+    simp only [List.mem_cons, List.mem_map] at ht
+    rcases ht with rfl | ⟨kv, hkv, rfl⟩
+    · exact hsp c (hlabmem c hc).1
+    · simp only [svmItem, List.mem_append, List.mem_cons] at hc
+      rcases hc with hc | hc | hc
+      · exact hsp c ((hfec kv hkv).1 c hc).1
+      · subst hc; decide
+      · exact hsp c ((hfec kv hkv).2 c hc).1)]
+  have hcol : ¬ (joinWith COMMA r.labels = [] ∨ COLON ∈ joinWith COMMA r.labels) := by
+    intro h
+    rcases h with h | h
+    · exact hl2 h
+    · exact (hlabmem COLON h).2 rfl
+  simp only [hcol, if_false]
+  rw [svmFeats_items r.feats (fun kv hkv => ⟨fun c hc => ((hfec kv hkv).1 c hc).2, fun c hc => ((hfec kv hkv).2 c hc).2⟩)]
+  simp only
+  rw [splitOn_join COMMA r.labels hl1 (fun t ht c hc => (hlabc t ht c hc).2.1)]
+
+theorem svmWriteRow_ne (r : SvmRow) (hok : svmRowOk r = true) : svmWriteRow r ≠ [] := by
+  unfold svmRowOk at hok
+  simp only [Bool.and_eq_true, decide_eq_true_eq] at hok
+  intro h
+  unfold svmWriteRow at h
+  simp at h
+  exact hok.1.1.2 h.1
+
+theorem libsvm_roundtrip' (rows : List SvmRow) (hok : ∀ r ∈ rows, svmRowOk r = true) :
+    libsvmRead (rows.map svmWriteRow) = .ok rows := by
+  induction rows with
+  | nil => rfl
+  | cons r rs ih =>
+    simp only [List.map_cons, libsvmRead, svmWriteRow_ne r (hok r (by simp)), if_false,
+      svmLine_write r (hok r (by simp)), ih (fun r' hr' => hok r' (by simp [hr']))]
+
+theorem manik_roundtrip' (first : Text) (rows : List SvmRow) (hok : ∀ r ∈ rows, svmRowOk r = true) :
+    manikRead (first :: rows.map svmWriteRow) = .ok rows := by
+  simp [manikRead, libsvm_roundtrip' rows hok]
 
 
 end Coba.C12
